@@ -1230,12 +1230,14 @@ def check_accessors(cls, meth=None):
     if C is None:
         return None
     spec = {"DocxImage": ("image_index", None), "PptxImage": ("image_index", "slide_number"), "XlsxImage": ("image_index", ("sheet_index", 1)),
-            "OpenDocumentImage": ("image_index", "unit_name"), "EpubImage": ("image_index", "unit_index"), "PdfImage": ("index", "unit_name")}.get(cls)
+            "OpenDocumentImage": ("image_index", "unit_name"), "EpubImage": ("image_index", "unit_index"), "PdfImage": ("index", "unit_name"), "RtfImage": ("image_index", "page_number")}.get(cls)
     if spec is None:
         return None
     num, unit = spec
     flds = {f.name: str(f.type) for f in dataclasses.fields(C)}
-    if num not in flds or "content_type" not in flds:
+    ctf = "content_type" if "content_type" in flds else "image_type"      # RtfImage stores the picture kind; its sizes are twips (no clause)
+    kinds = {"png": "image/png", "jpeg": "image/jpeg", "jpg": "image/jpeg", "PNG": "image/png", "Jpeg": "image/jpeg"}
+    if num not in flds or ctf not in flds:
         return None
     pay = [n for n, t in flds.items() if "BytesIO" in t or ("bytes" in t and n != "size_bytes")]
     pay = pay[0] if len(pay) == 1 else None
@@ -1253,25 +1255,27 @@ def check_accessors(cls, meth=None):
         if odf:
             v = px(v) if px else None
         return v if isinstance(v, int) and v > 0 else None
-    for n, u, w, h, ct in itertools.product((1, 7), units, sizes, sizes[::-1], ("image/png", " image/jpeg ")):
-        kw = {num: n, "content_type": ct, "width": w, "height": h}
+    def ct_ok(got, ct):
+        return got == kinds[ct] if ctf == "image_type" else got in (ct, ct.strip())
+    for n, u, w, h, ct in itertools.product((1, 7), units, sizes, sizes[::-1], ("image/png", " image/jpeg ") if ctf == "content_type" else tuple(kinds)):
+        kw = {num: n, ctf: ct, "width": w, "height": h}
         if ufield is not None:
             kw[ufield] = u
         kw = {k: v for k, v in kw.items() if k in flds}
         if meth in (None, "get_metadata"):
             md = C(**kw).get_metadata()
             uw = [None, u + unit[1] if u is not None else None] if isinstance(unit, tuple) else [u]
-            for key, ok, exp in (("image_number", md.image_number == n, n), ("content_type", md.content_type in (ct, ct.strip()), ct),
-                                 ("unit_number", md.unit_number in uw, uw), ("width", md.width == want_size(w), want_size(w)),
-                                 ("height", md.height == want_size(h), want_size(h))):
+            for key, ok, exp in (("image_number", md.image_number == n, n), ("content_type", ct_ok(md.content_type, ct), ct),
+                                 ("unit_number", md.unit_number in uw, uw), ("width", ctf == "image_type" or md.width == want_size(w), want_size(w)),
+                                 ("height", ctf == "image_type" or md.height == want_size(h), want_size(h))):
                 if not ok:
                     return fail("get_metadata()", kw, f"{key} == {exp!r}", f"{key} == {getattr(md, key)!r}")
                 if dict(md).get(key, "<absent>") != getattr(md, key):
                     return fail("get_metadata()", kw, f"dict view [{key!r}] == attribute {getattr(md, key)!r}", repr(dict(md).get(key, "<absent>")))
         if meth in (None, "get_content_type"):
             got = C(**kw).get_content_type()
-            if got not in (ct, ct.strip()):
-                return fail("get_content_type()", kw, repr(ct), repr(got))
+            if not ct_ok(got, ct):
+                return fail("get_content_type()", kw, repr(kinds[ct] if ctf == "image_type" else ct), repr(got))
     if meth in (None, "get_bytes") and pay is not None:
         stream = "BytesIO" in flds[pay]
         for data in ([None] if opt(pay) else []) + [b"", b"\x89PNG\r\n\x1a\n" + bytes(range(256))]:
